@@ -94,22 +94,22 @@ MAX_OPS = {'quick': 30, 'thorough': 40}
 ENUM_LEN = {'quick': 3, 'thorough': 4}
 
 FLOORS = {
-    'quick': {'nontrivial': 8000,
-              'monitors': {'M': 90000, 'M.failed-op': 12000, 'M.ghost': 3000, 'K1': 150000, 'K2': 100000},
-              'counters': {'reorder:item-variant': 9000, 'reorder:ref-variant': 4000,
-                           'fail:reorder-missing-item': 2500, 'fail:reorder-missing-ref': 900,
-                           'fail:self-relative': 900, 'fail:self-relative-variant': 700,
-                           'fail:del-missing': 1500, 'fail:get-missing': 100,
-                           'reorder:only-element': 400, 'del:head': 1500, 'del:tail': 1500, 'del:only': 1000,
-                           'ok:sort': 2000, 'ok:copy': 300, 'ok:cycle': 400}},
-    'thorough': {'nontrivial': 400000,
-                 'monitors': {'M': 4000000, 'M.failed-op': 500000, 'M.ghost': 200000, 'K1': 8000000, 'K2': 5000000},
-                 'counters': {'reorder:item-variant': 500000, 'reorder:ref-variant': 250000,
-                              'fail:reorder-missing-item': 120000, 'fail:reorder-missing-ref': 50000,
-                              'fail:self-relative': 40000, 'fail:self-relative-variant': 30000,
-                              'fail:del-missing': 80000, 'fail:get-missing': 8000,
-                              'reorder:only-element': 20000, 'del:head': 80000, 'del:tail': 80000,
-                              'del:only': 40000, 'ok:sort': 100000, 'ok:copy': 20000, 'ok:cycle': 25000}},
+    'quick': {'nontrivial': 11500,
+              'monitors': {'M': 110000, 'M.failed-op': 33000, 'M.ghost': 3000, 'K1': 145000, 'K2': 185000},
+              'counters': {'reorder:item-variant': 21000, 'reorder:ref-variant': 5500,
+                           'fail:reorder-missing-item': 11000, 'fail:reorder-missing-ref': 3800,
+                           'fail:self-relative': 2600, 'fail:self-relative-variant': 4800,
+                           'fail:del-missing': 3300, 'fail:get-missing': 300, 'fail:then-more-ops': 20000,
+                           'reorder:only-element': 10000, 'del:head': 2300, 'del:tail': 1900, 'del:only': 2100,
+                           'ok:sort': 4200, 'ok:copy': 1700, 'ok:cycle': 1500}},
+    'thorough': {'nontrivial': 320000,
+                 'monitors': {'M': 4600000, 'M.failed-op': 1400000, 'M.ghost': 200000, 'K1': 5500000, 'K2': 7000000},
+                 'counters': {'reorder:item-variant': 1000000, 'reorder:ref-variant': 200000,
+                              'fail:reorder-missing-item': 450000, 'fail:reorder-missing-ref': 145000,
+                              'fail:self-relative': 170000, 'fail:self-relative-variant': 240000,
+                              'fail:del-missing': 150000, 'fail:get-missing': 19000, 'fail:then-more-ops': 1000000,
+                              'reorder:only-element': 500000, 'del:head': 90000, 'del:tail': 80000,
+                              'del:only': 115000, 'ok:sort': 175000, 'ok:copy': 110000, 'ok:cycle': 98000}},
 }
 
 # ---------------------------------------------------------------------------
@@ -725,6 +725,8 @@ def execute(rec, case):
                     else:
                         fail_class = 'reorder-missing-ref'
                 rec.count('fail:%s' % fail_class)
+                if step + 1 < len(ops):
+                    rec.count('fail:then-more-ops')     # the history goes on (and is observed) after the rejection
                 if raised is None:
                     what = 'self-relative-reorder-not-rejected' if expect == 'ValueError' else 'missing-key-not-rejected'
                     return (('%s/%s' % (label, what), 'op %r did not raise (expected %s); list(d)=%r'
@@ -830,9 +832,9 @@ def setup(ctx):
     if os.environ.get('VP_C09_NO_K'):
         # self-test switch: leave the auxiliary K monitors off to show that the deciding boundary monitor M
         # fires on its own.  Such a run can never be reported as held: the K1/K2 floors make it INCONCLUSIVE.
-        ctx.extra['k_methods_wrapped'] = {'K1': 0, 'K2': 0}
+        ctx.extra['k_methods_wrapped'] = ['K1:off', 'K2:off']
         return
-    ctx.extra['k_methods_wrapped'] = {'K1': kmon.attach_K1(), 'K2': kmon.attach_K2()}
+    ctx.extra['k_methods_wrapped'] = ['K1:%d' % kmon.attach_K1(), 'K2:%d' % kmon.attach_K2()]
 
 
 def run_case(ctx, case):
